@@ -27,9 +27,11 @@ func (r *Router) proxy(w http.ResponseWriter, req *http.Request) {
 	}
 	// add context to propagate timeouts and things
 	upstreamReq = upstreamReq.WithContext(req.Context())
-	// copy over headers from upstream to the upstream service
+	// copy over headers from upstream to the upstream service, keeping each
+	// header's list of values (a repeated header such as Cookie or Accept must not
+	// be collapsed into one comma-joined value)
 	for header, vals := range req.Header {
-		upstreamReq.Header.Set(header, strings.Join(vals, ","))
+		upstreamReq.Header[header] = append([]string(nil), vals...)
 	}
 	if forwarded != "" {
 		upstreamReq.Header.Set("X-Forwarded-For", forwarded+", "+req.RemoteAddr)
